@@ -1,1 +1,14 @@
-(* Proofs/Matrix.v -- stub, to be filled in *)
+(* Proofs/Matrix.v -- lemmas about Model/Matrix.v (dense matrices). *)
+From Coq Require Import List Arith Lia.
+From OV Require Import Base.Panic Base.Arith Model.Vector Model.Matrix.
+Import ListNotations.
+
+Section MatProofs.
+Context {A : Arith}.
+
+Definition wf (m : matrix A) : Prop := length (buf m) = rows m * cols m.
+
+Lemma mat_new_wf_lemma r c (x : A) : wf (mat_new r c x) /\ rows (mat_new r c x) = r /\ cols (mat_new r c x) = c.
+Proof. unfold wf, mat_new; cbn. now rewrite repeat_length. Qed.
+
+End MatProofs.
